@@ -79,7 +79,7 @@ Put(i, s) ==
     /\ b # 0
     /\ bad' = IF b \in inPool THEN bad \cup {"double-put"} ELSE bad
     /\ inPool' = inPool \cup {b}
-    /\ slot' = [slot EXCEPT ![i][s] = IF DoubleRelease /\ s = "tmp" THEN b ELSE 0]
+    /\ slot' = [slot EXCEPT ![i][s] = 0]
     /\ UNCHANGED <<data, reads, prog>>
 
 \* message.decompress / compress / encode: the old buffer goes back, the new one takes its place
@@ -87,7 +87,8 @@ Swap(i) ==
     LET old == slot[i]["msg"]  new == slot[i]["tmp"] IN
     /\ old # 0 /\ new # 0
     /\ bad' = IF old \in inPool THEN bad \cup {"double-put"} ELSE bad
-    /\ inPool' = inPool \cup {old}
+    \* (DoubleRelease: the stage also releases the buffer it hands to its successor)
+    /\ inPool' = inPool \cup {old} \cup (IF DoubleRelease THEN {new} ELSE {})
     /\ slot' = [slot EXCEPT ![i]["msg"] = new, ![i]["tmp"] = 0]
     /\ UNCHANGED <<data, reads, prog>>
 
